@@ -34,6 +34,7 @@ STREAMS = {
     "tbl": {"relevant": True, "desc": "BeaconVersion.from_pe_export_stamp / from_max_setting_enum"},
     "cfg": {"relevant": True, "desc": "BeaconConfig.version precedence (export stamp, then max setting enum)"},
     "fmt": {"relevant": True, "desc": "documented shape: format → BeaconVersion → same fields"},
+    "cls": {"relevant": False, "desc": "character classes of the str patterns: re \\s, \\d and int() over all code points"},
     "mono": {"relevant": True, "desc": "table monotonicity on every key pair through the real BeaconVersion constructors"},
 }
 TRUSTED = [
@@ -43,7 +44,7 @@ TRUSTED = [
     "are modelled (Model/C18.lean: matchVersion, strptimeDate, validDate), not verified; io.BytesIO / file objects by Model/PyFile.lean",
 ]
 ASSUMPTIONS = [
-    "version strings: Unicode decimal digits other than 0-9 and case-folding specials (U+017F, U+212A) are outside the modelled domain; "
+    "version strings: any Python str (Unicode digits and white space are table-driven, measured on re/int at generation time); "
     "digit groups shorter than CPython's int-conversion limit (4300 digits); C locale month abbreviations",
     "file objects are io.BytesIO or regular files opened 'rb'; start_offset is None or a non-negative int, maxrange a non-negative int",
 ]
@@ -444,6 +445,15 @@ def gen(tier, rng, shard, nshards):
         en = [rng.choice(allen + [rng.randrange(1, 120)]) for _ in range(rng.randrange(0, 6))]
         yield "cfg", f"cfg {st} {C.ints(en)}"
 
+    # ---- character classes: every code point (thorough) / the BMP part that holds all white space + sampled blocks (quick)
+    step = 4096
+    blocks = list(range(0, 0x110000, step))
+    for b in blocks:
+        if not mine():
+            continue
+        if thorough or b < 0x4000 or rng.random() < 0.1:
+            yield "cls", f"cls {b} {min(b + step, 0x110000)}"
+
     # ---- 6. version strings -----------------------------------------------------------------------------
     for text in sorted(set(version.PE_EXPORT_STAMP_TO_VERSION.values()) | set(version.MAX_ENUM_TO_VERSION.values())):
         if mine():
@@ -496,6 +506,15 @@ EDGE_VERSIONS = [
     "Cobalt Strike 4.5 (Dec 30, 2021)", "Cobalt Strike 4.5 (Dec 29, 2021)", "Cobalt Strike 4.5 (Dec 19, 2021)", "Cobalt Strike 4.5 (Dec 09, 2021)",
     "Cobalt Strike 4.5 (Dec 9, 2021)", "Cobalt Strike 4.5 (Dec 4 , 2021)", "Cobalt Strike 4.5 (Dec 40, 2021)", "Cobalt Strike 4.5 (Dec 33, 2021)",
     "Cobalt Strike 4.5 (é)", "Cobalt Strike 4.5 (日本)", "Cobalt Strike 4.5 (Dec 14, 2021)日",
+    # Unicode decimal digits (\d of a str pattern, int()) and white space; case-folding specials of re.IGNORECASE
+    "Cobalt Strike ٤.٥ (Dec 14, 2021)", "Cobalt Strike 4.5.٣ (Dec 14, 2021)", "Cobalt Strike ４.５ (Dec 14, ２０２１)",
+    "Cobalt Strike 4.5 (Dec 1٤, 2021)", "Cobalt Strike 4.5 (Dec ١4, 2021)", "Cobalt Strike 4.5 (Dec 3١, 2021)", "Cobalt Strike 4.5 (Dec 0١, 2021)",
+    "Cobalt Strike 4.5 (Dec ٤, 2021)", "Cobalt Strike 4.5 (Dec 2𝟗, 2021)", "Cobalt Strike 𝟜.𝟝 (Dec 14, 𝟚𝟘𝟚𝟙)", "Cobalt Strike 4.5 (Dec 14, 20２1)",
+    "Cobalt Strike 4.5 (Dec\u200514,\u30002021)", "Cobalt Strike 4.5 (Dec\u180e14, 2021)", "Cobalt Strike 4.5 (Dec\u200b14, 2021)",
+    "Cobalt Strike 4.5 (ſep 14, 2021)", "Cobalt Strike 4.5 (\u017fEP 14, 2021)", "Cobalt Strike 4.5 (Oc\u212a 14, 2021)",
+    "Cobalt Strike 4.5 (Jun 14, 2021)", "Cobalt Strike 4.5 (JUN 14, 2021)", "Cobalt Strike 4.5 (jUn 14, 2021)", "Cobalt Strike 4.5 (Ju\u0130 14, 2021)",
+    "Cobalt Strike 4\u00b2.5 (Dec 14, 2021)", "Cobalt Strike 4.5 (Dec 14, 202\u00b9)", "Cobalt Strike 4.5 (Dec 14, 2021)\u2028x",
+    "Cobalt Strike 4.5 (Dec 14, 2021\u2028)", "Cobalt Strike 4.5 (Dec 14, 2021\r)", "Cobalt Strike 4.5 (Dec 14, 2021)\x00", "Cobalt Strike 4.5 (\ud800)",
 ]
 
 
@@ -511,11 +530,19 @@ def gen_version(rng) -> str:
     """documented shape with local deviations"""
     maj = str(rng.choice([3, 4, 4, 4, 0, 10, 123]))
     mn = str(rng.choice([0, 1, 5, 9, 10, 11, 14, 7]))
+    if rng.random() < 0.08:
+        z = rng.choice([0x660, 0xFF10, 0x1D7CE, 0x966])
+        maj = "".join(chr(z + int(ch)) if rng.random() < 0.7 else ch for ch in maj)
+        mn = "".join(chr(z + int(ch)) if rng.random() < 0.7 else ch for ch in mn)
     patch = rng.choice(["", "", "", ".1", ".0", ".12", ".", "..1", ".x"])
     mon = rng.choice(MONTHS + ["jan", "DEC", "sEp", "Foo", "Ma", "Sept", "Juli"])
     day = rng.choice([f"{rng.randrange(0, 33):02d}", str(rng.randrange(0, 40)), " " + str(rng.randrange(1, 10)), "3", "31", "30", "29"])
     year = rng.choice(["2016", "2020", "2021", "2024", "1999", "2000", "1900", "0000", "0001", "9999", "202", "20201", "20a1"])
-    sep1 = rng.choice([" ", " ", " ", "  ", "\t", "", "\xa0"])
+    if rng.random() < 0.08:
+        z = rng.choice([0x660, 0xFF10, 0x1D7CE])
+        day = "".join(chr(z + int(ch)) if (ch.isdigit() and rng.random() < 0.5) else ch for ch in day)
+        year = "".join(chr(z + int(ch)) if (ch.isdigit() and rng.random() < 0.5) else ch for ch in year)
+    sep1 = rng.choice([" ", " ", " ", "  ", "\t", "", "\xa0", "\u2003", "\u3000"])
     sep2 = rng.choice([", ", ", ", ", ", ",", ",  ", " , ", "; ", ",\t"])
     date = f"{mon}{sep1}{day}{sep2}{year}"
     s = f"Cobalt Strike {maj}.{mn}{patch} ({date})"
@@ -621,6 +648,19 @@ def impl(stream, line):
         key = int(w[2])
         bv = version.BeaconVersion.from_pe_export_stamp(key) if w[1] == "pe" else version.BeaconVersion.from_max_setting_enum(key)
         return f"{txt(str(bv))} {_ver(bv)}"
+    if stream == "cls":
+        import re
+
+        out = []
+        for c in range(int(w[1]), int(w[2])):
+            ch = chr(c)
+            if re.match(r"\s", ch):
+                out.append("s")
+            elif re.match(r"\d", ch):
+                out.append(str(int(ch)))
+            else:
+                out.append("-")
+        return "".join(out)
     if stream == "mono":
         mk = version.BeaconVersion.from_pe_export_stamp if w[1] == "pe" else version.BeaconVersion.from_max_setting_enum
         k1, k2 = int(w[2]), int(w[3])
